@@ -90,11 +90,12 @@ def ribModule (st : St) (ext : Ext) (inFace : Nat) (name : Name) (p : Params) : 
   match name[3]? with
   | none => (st, .panic "index out of range")     -- unreachable from `run` (length ≥ 4)
   | some verb =>
-    if compIs verb "register" then ribRegister st ext inFace name p
-    else if compIs verb "unregister" then ribUnregister st ext inFace name p
-    else if compIs verb "announce" then ribAnnounce st name
-    else if compIs verb "list" then ribList st name
-    else (st, .ctrl 501 noArgs)
+    match wordOf verb with
+    | .register => ribRegister st ext inFace name p
+    | .unregister => ribUnregister st ext inFace name p
+    | .announce => ribAnnounce st name
+    | .list => ribList st name
+    | _ => (st, .ctrl 501 noArgs)
 
 /-! ### FIB module (fw/mgmt/fib.go) -/
 
@@ -135,10 +136,11 @@ def fibModule (st : St) (inFace : Nat) (name : Name) (p : Params) : St × Resp :
   match name[3]? with
   | none => (st, .panic "index out of range")
   | some verb =>
-    if compIs verb "add-nexthop" then fibAdd st inFace name p
-    else if compIs verb "remove-nexthop" then fibRemoveCmd st inFace name p
-    else if compIs verb "list" then fibList st name
-    else (st, .ctrl 501 noArgs)
+    match wordOf verb with
+    | .addNexthop => fibAdd st inFace name p
+    | .removeNexthop => fibRemoveCmd st inFace name p
+    | .list => fibList st name
+    | _ => (st, .ctrl 501 noArgs)
 
 /-! ### Strategy-choice module (fw/mgmt/strategy-choice.go) -/
 
@@ -157,7 +159,7 @@ def checkStrategy (s : Name) : Except Nat Name :=
       match avail with
       | [] => .error 404                                 -- (registry never has an empty list)
       | v0 :: vs =>
-        let newest := vs.foldl (fun m v => if v > m then v else m) v0
+        let newest := newestVersion (v0 :: vs)
         match s[4]? with
         | none => .ok (strategyPrefix ++ [sn, ⟨versionType, encNat newest⟩])
         | some vc =>
@@ -204,10 +206,11 @@ def scModule (st : St) (name : Name) (p : Params) : St × Resp :=
   match name[3]? with
   | none => (st, .panic "index out of range")
   | some verb =>
-    if compIs verb "set" then scSetCmd st name p
-    else if compIs verb "unset" then scUnsetCmd st name p
-    else if compIs verb "list" then scList st name
-    else (st, .ctrl 501 noArgs)
+    match wordOf verb with
+    | .set => scSetCmd st name p
+    | .unset => scUnsetCmd st name p
+    | .list => scList st name
+    | _ => (st, .ctrl 501 noArgs)
 
 /-! ### Content-store module (fw/mgmt/cs.go) -/
 
@@ -232,11 +235,12 @@ def csModule (st : St) (name : Name) (p : Params) : St × Resp :=
   match name[3]? with
   | none => (st, .panic "index out of range")
   | some verb =>
-    if compIs verb "config" then csConfig st name p
-    else if compIs verb "erase" then (st, .none)
-    else if compIs verb "info" then csInfo st name
-    else if compIs verb "query" then (st, .none)
-    else (st, .ctrl 501 noArgs)
+    match wordOf verb with
+    | .config => csConfig st name p
+    | .erase => (st, .none)
+    | .info => csInfo st name
+    | .query => (st, .none)
+    | _ => (st, .ctrl 501 noArgs)
 
 /-! ### Forwarder status (fw/mgmt/forwarder-status.go) -/
 
@@ -245,10 +249,11 @@ def statusModule (st : St) (name : Name) : St × Resp :=
   match name[3]? with
   | none => (st, .panic "index out of range")
   | some verb =>
-    if compIs verb "general" then
+    match wordOf verb with
+    | .general =>
       (if name.length > 4 then (st, .none)
        else ({ st with vStatus := st.vStatus + 1 }, .dataset lhPrefix "status/general" st.vStatus (.status st.fib.length)))
-    else (st, .ctrl 501 noArgs)
+    | _ => (st, .ctrl 501 noArgs)
 
 /-! ### Faces module (fw/mgmt/face.go) -/
 
@@ -257,7 +262,6 @@ def statusModule (st : St) (name : Name) : St × Resp :=
 def minMtu : Nat := 64
 def maxPacket : Nat := 8800
 
-def faceFlags (f : Face) : Nat := (if f.localFields then 1 else 0) + (if f.congMark then 4 else 0)
 
 /-- `fillFaceProperties` minus Uri/LocalUri (face update response) -/
 def faceProps (f : Face) : Args :=
@@ -265,15 +269,17 @@ def faceProps (f : Face) : Args :=
     flags := some (if f.ndnlp then faceFlags f else 0),
     bcmi := if f.ndnlp then some f.bcmi else none, dct := if f.ndnlp then some f.dct else none }
 
-def persOk (f : Face) (p : Nat) : Bool :=
-  if f.rscheme == "ether" && p != 2 then false
-  else if (f.rscheme == "udp4" || f.rscheme == "udp6") && p != 0 && p != 2 then false
-  else if f.lscheme == "unix" && p != 0 then false
-  else true
+/-- fix F-17b: an MTU below `minMtu` is refused -/
+def mtuOk (mtu : Option Nat) : Bool := match mtu with | some m => minMtu ≤ m | none => true
 
-def applyFlags (f : Face) (flags mask : Nat) : Face :=
-  let f := if mask % 2 == 1 then { f with localFields := flags % 2 == 1 } else f
-  if mask / 4 % 2 == 1 then { f with congMark := flags / 4 % 2 == 1 } else f
+/-- "Actually perform face updates": persistency, congestion parameters, MTU (capped at the
+    maximum packet size), flags under the mask -/
+def faceAfter (f : Face) (a : Args) : Face :=
+  let f := match a.pers with | some pv => { f with pers := pv } | none => f
+  let f := match a.bcmi with | some b => { f with bcmi := b } | none => f
+  let f := match a.dct with | some d => { f with dct := d } | none => f
+  let f := match a.mtu with | some m => { f with mtu := if m > maxPacket then maxPacket else m } | none => f
+  match a.flags, a.mask with | some fl, some mk => applyFlags f fl mk | _, _ => f
 
 def faceUpdate (st : St) (inFace : Nat) (name : Name) (p : Params) : St × Resp :=
   if !hasParams name then (st, r400) else
@@ -285,17 +291,9 @@ def faceUpdate (st : St) (inFace : Nat) (name : Name) (p : Params) : St × Resp 
     | none => (st, .ctrl 404 { faceId := some faceID })
     | some f =>
       if f.rscheme == "null" || f.rscheme == "internal" then (st, .ctrl 401 { faceId := some faceID }) else
-      let okPers := match a.pers with | some pv => persOk f pv | none => true
-      let okFlags := a.flags.isSome == a.mask.isSome
-      let okMtu := match a.mtu with | some m => minMtu ≤ m | none => true       -- F-17b
-      if !(okPers && okFlags && okMtu) then (st, .ctrl 409 noArgs) else
+      if !(persArgOk f a.pers && flagsMaskOk a.flags a.mask && mtuOk a.mtu) then (st, .ctrl 409 noArgs) else
       if !f.ndnlp then (st, .panic "interface conversion") else
-      let f := match a.pers with | some pv => { f with pers := pv } | none => f
-      let f := match a.bcmi with | some b => { f with bcmi := b } | none => f
-      let f := match a.dct with | some d => { f with dct := d } | none => f
-      let f := match a.mtu with | some m => { f with mtu := if m > maxPacket then maxPacket else m } | none => f
-      let f := match a.flags, a.mask with | some fl, some mk => applyFlags f fl mk | _, _ => f
-      ({ st with faces := faceSet st.faces f }, .ctrl 200 (faceProps f))
+      ({ st with faces := faceSet st.faces (faceAfter f a) }, .ctrl 200 (faceProps (faceAfter f a)))
 
 def faceDestroy (st : St) (ext : Ext) (name : Name) (p : Params) : St × Resp :=
   if !hasParams name then (st, r400) else
@@ -318,11 +316,13 @@ def facesModule (st : St) (ext : Ext) (inFace : Nat) (name : Name) (p : Params) 
   match name[3]? with
   | none => (st, .panic "index out of range")
   | some verb =>
-    if compIs verb "update" then faceUpdate st inFace name p
-    else if compIs verb "destroy" then faceDestroy st ext name p
-    else if compIs verb "list" then faceList st name
-    else if compIs verb "create" || compIs verb "query" then (st, .none)   -- not generated; see design/C17.md
-    else (st, .ctrl 501 noArgs)
+    match wordOf verb with
+    | .update => faceUpdate st inFace name p
+    | .destroy => faceDestroy st ext name p
+    | .list => faceList st name
+    | .create => (st, .none)   -- not generated; see design/C17.md
+    | .query => (st, .none)    -- not generated; see design/C17.md
+    | _ => (st, .ctrl 501 noArgs)
 
 /-! ### Thread.Run (fw/mgmt/thread.go) -/
 
@@ -333,13 +333,14 @@ def run (st : St) (ext : Ext) (inFace : Nat) (name : Name) (p : Params) : St × 
   match name[2]? with
   | none => (st, .panic "index out of range")
   | some m =>
-    if compIs m "cs" then csModule st name p
-    else if compIs m "faces" then facesModule st ext inFace name p
-    else if compIs m "fib" then fibModule st inFace name p
-    else if compIs m "rib" then ribModule st ext inFace name p
-    else if compIs m "status" then statusModule st name
-    else if compIs m "strategy-choice" then scModule st name p
-    else (st, .ctrl 501 noArgs)
+    match modOf m with
+    | .cs => csModule st name p
+    | .faces => facesModule st ext inFace name p
+    | .fib => fibModule st inFace name p
+    | .rib => ribModule st ext inFace name p
+    | .status => statusModule st name
+    | .sc => scModule st name p
+    | .other => (st, .ctrl 501 noArgs)
 
 /-! ### The forwarding thread in front of management (fw/fw/thread.go) -/
 
@@ -352,7 +353,7 @@ def fwGuard (st : St) (face : Nat) (name : Name) : Bool :=
   | none => false
   | some f =>
     match name with
-    | c :: _ => !(f.scope == 0 && c.val == localhostVal)
+    | c :: _ => !(!f.isLocal && c.val == localhostVal)
     | [] => true
 
 /-- A packet arriving from the network / an application on `face`. `routed`: the forwarding plane
@@ -391,18 +392,18 @@ def sendOutcome (mtu : Nat) (frag inFaceInd hasToken hasMark : Bool) (len : Nat)
 
 /-! ### Initial state of a history (the harness world) -/
 
-def mkHook (id : Nat) (uri : String) (scope : Nat) (lf : Bool) : Face :=
-  { id := id, uri := uri, rscheme := "udp4", lscheme := "udp4", scope := scope, pers := 0, mtu := 8800, ndnlp := true,
+def mkHook (id : Nat) (uri : String) (isLocal : Bool) (lf : Bool) : Face :=
+  { id := id, uri := uri, rscheme := "udp4", lscheme := "udp4", isLocal := isLocal, pers := 0, mtu := 8800, ndnlp := true,
     localFields := lf, congMark := false, bcmi := 100000000, dct := 65536 }
 
 def initFaces : List Face :=
-  [ { id := 1, uri := "internal://", rscheme := "internal", lscheme := "internal", scope := 1, pers := 0, mtu := 8800,
+  [ { id := 1, uri := "internal://", rscheme := "internal", lscheme := "internal", isLocal := true, pers := 0, mtu := 8800,
       ndnlp := true, localFields := true, congMark := false, bcmi := 100000000, dct := 65536 },
-    mkHook 2 "udp4://127.0.0.1:7001" 1 true,
-    mkHook 3 "udp4://127.0.0.1:7002" 1 false,
-    mkHook 4 "udp4://192.0.2.10:6363" 0 false,
-    mkHook 5 "udp4://192.0.2.11:6363" 0 true,
-    mkHook 6 "udp4://127.0.0.1:7009" 1 false ]
+    mkHook 2 "udp4://127.0.0.1:7001" true true,
+    mkHook 3 "udp4://127.0.0.1:7002" true false,
+    mkHook 4 "udp4://192.0.2.10:6363" false false,
+    mkHook 5 "udp4://192.0.2.11:6363" false true,
+    mkHook 6 "udp4://127.0.0.1:7009" true false ]
 
 def init (lh : Bool) : St :=
   { lh := lh, faces := initFaces, rib := [],
